@@ -18,6 +18,7 @@ From TucModel Require Import Base.Bytes Base.ListX Model.Bounds Spec.Resolve Pro
   Model.Scan Model.Regex Model.Opt Model.Stream Model.FastLane Tie.RsOpt
   Tie.Gen_fast_try_from Tie.Bridge_fast_try_from Tie.Gen_stream_try_from Tie.Bridge_stream_try_from
   Model.BoundsParse Spec.BoundsGrammar Tie.RsStr Tie.Gen_side_from_str Tie.Bridge_side_from_str Tie.Gen_ub_from_str Tie.Bridge_ub_from_str
+  Tie.RsList Tie.Gen_ubl_unpack Tie.Bridge_ubl_unpack Tie.Gen_ubl_complement Tie.Bridge_ubl_complement
   Proofs.C13 Proofs.C06 Proofs.C03Full Proofs.C19 Proofs.C18Iff.
 Import ListNotations.
 Local Open Scope Z_scope.
@@ -171,7 +172,22 @@ Proof.
   rewrite <- (parse_bound_iff s b). split; [intros E; injection E as E; exact E | intros ->; reflexivity].
 Qed.
 
+(** C15 / C13, list level: the translated [UserBoundsList::complement] never panics; it refuses exactly
+    when no bound is left after every bound has been replaced by what it leaves out (an unresolvable
+    bound stays, so it is not "nothing"); otherwise the list it builds is the model's. *)
+Theorem tie_C15_list_complement : forall (u : ublist) (n : nat),
+  Z.of_nat n <= i32_max -> Forall item_left_nz (items u) ->
+  gen_ubl_complement u (Z.of_nat n) = Ret (complement_list (items u) n)
+  /\ (complement_list (items u) n = None <-> bounds_only (complement_items (items u) n) = []).
+Proof.
+  intros u n Hn Hnz. split; [exact (tie_ubl_complement u n Hn Hnz)|].
+  unfold complement_list. destruct (bounds_only (complement_items (items u) n)) as [|b bs] eqn:E.
+  - split; reflexivity.
+  - unfold from_vec. rewrite E. split; discriminate.
+Qed.
+
 Print Assumptions tie_try_into_range_spec.
+Print Assumptions tie_C15_list_complement.
 Print Assumptions tie_C18_bound_accepted_iff.
 Print Assumptions tie_C19_fixed_memory_eligibility.
 Print Assumptions tie_C02_fast_path_domain.
